@@ -10,8 +10,12 @@ Abstract values (plain Python data, mirrored 1:1 by the Coq model):
              "ids": str|None, "tok": int, "quals": [...], "children": [elem], "ctype": int,
              "val": None | ("path", str) | ("data", int)}
   qual    = {"k": "qual", "type": str, "val": int};  ref = {"k": "ref", "id": str};  ai = {"k": "ai", "tok": int}
-`tok` stands for "all other attributes": carried by `description` ({"en": "T<tok>"}); for shells by
-assetInformation.globalAssetId ("urn:asset:<tok>").  ctype / data are indices into CTYPES / CONTENTS.
+`tok` stands for "all other attributes": carried by `description` ({"en": "T<tok>"}) AND, for submodels and
+submodel elements, by semanticId / supplementalSemanticIds (sem_class(tok): 0 = neither, 1 = semanticId only,
+2 = semanticId + one supplementalSemanticId; attributes that constrain each other and are taken over one after
+the other by Referable.update_from).  A document whose description and semantics disagree (a half-updated object)
+reads as tok -2.  For shells tok is carried by assetInformation.globalAssetId ("urn:asset:<tok>").
+ctype / data are indices into CTYPES / CONTENTS.
 """
 import base64
 import binascii
@@ -49,6 +53,31 @@ def _desc(tok):
 
 
 LIST_SEMANTICS = model.ExternalReference((model.Key(model.KeyTypes.GLOBAL_REFERENCE, "urn:list:semantics"),))
+# every semanticId of the pool is the same reference, so that the items of a SubmodelElementList may carry it whatever
+# the list's semanticIdListElement is (AASd-107, AASd-114)
+SEM_VALUE, SUPPL_VALUE = "urn:list:semantics", "urn:supplemental:1"
+SUPPL_SEMANTICS = model.ExternalReference((model.Key(model.KeyTypes.GLOBAL_REFERENCE, SUPPL_VALUE),))
+
+
+def sem_class(tok):
+    """which of semanticId / supplementalSemanticIds an object with this `tok` carries"""
+    return tok % 3 if tok > 0 else 0
+
+
+def _sem(tok):
+    c = sem_class(tok)
+    return dict(semantic_id=LIST_SEMANTICS if c >= 1 else None,
+                supplemental_semantic_id=[SUPPL_SEMANTICS] if c == 2 else [])
+
+
+def _tok_sem(tok, sem, suppl):
+    """tok read from the description + what was read from semanticId / supplementalSemanticIds (lists of the
+    first key values) -> tok, or -2 if they do not belong to the same document"""
+    if tok < 0:
+        return tok
+    want = sem_class(tok)
+    ok = sem == ([SEM_VALUE] if want >= 1 else []) and suppl == ([SUPPL_VALUE] if want == 2 else [])
+    return tok if ok else -2
 
 
 def list_typing(type_value, semantic_id_present):
@@ -60,7 +89,7 @@ def mk_quals(quals):
 
 
 def mk_elem(e):
-    common = dict(description=_desc(e["tok"]), qualifier=mk_quals(e.get("quals", [])))
+    common = dict(description=_desc(e["tok"]), qualifier=mk_quals(e.get("quals", [])), **_sem(e["tok"]))
     mt = e["mt"]
     val = e.get("val")
     ct = CTYPES[e.get("ctype", 0)]
@@ -106,7 +135,7 @@ def mk_obj(a):
             model.AssetInformation(model.AssetKind.INSTANCE, global_asset_id=f"urn:asset:{a['tok']}"),
             a["id"], id_short=a["ids"], submodel={sm_ref(s) for s in a.get("refs", [])})
     if k == "sm":
-        return model.Submodel(a["id"], id_short=a["ids"], description=_desc(a["tok"]),
+        return model.Submodel(a["id"], id_short=a["ids"], description=_desc(a["tok"]), **_sem(a["tok"]),
                               qualifier=mk_quals(a.get("quals", [])),
                               submodel_element=[mk_elem(e) for e in a.get("elems", [])])
     if k == "cd":
@@ -146,10 +175,21 @@ def _int(s):
         return -1
 
 
-def _tokd(d):
+def _refval(r):
+    try:
+        return r["keys"][0]["value"]
+    except (KeyError, IndexError, TypeError):
+        return "?"
+
+
+def _tokd(d, sem=True):
     ds = d.get("description")
     if isinstance(ds, list) and len(ds) == 1 and isinstance(ds[0], dict):
-        return _tok(ds[0].get("text"), "T")
+        t = _tok(ds[0].get("text"), "T")
+        if not sem:
+            return t
+        return _tok_sem(t, [_refval(d["semanticId"])] if "semanticId" in d else [],
+                        [_refval(r) for r in d.get("supplementalSemanticIds", [])])
     return -1
 
 
@@ -207,7 +247,7 @@ def abs_json(d):
         return {"k": "sm", "id": d.get("id"), "ids": d.get("idShort"), "tok": _tokd(d),
                 "quals": abs_quals_json(d), "elems": [abs_elem_json(e) for e in d.get("submodelElements", [])]}
     if mt == "ConceptDescription":
-        return {"k": "cd", "id": d.get("id"), "ids": d.get("idShort"), "tok": _tokd(d)}
+        return {"k": "cd", "id": d.get("id"), "ids": d.get("idShort"), "tok": _tokd(d, sem=False)}
     if mt is not None:
         r = abs_elem_json(d)
         r["k"] = "elem"
@@ -226,10 +266,19 @@ def _xt(el, name):
     return None if c is None else (c.text or "")
 
 
-def _tokx(el):
+def _refvalx(r):
+    ks = r.find(NS + "keys")
+    return _xt(ks[0], "value") if ks is not None and len(ks) else "?"
+
+
+def _tokx(el, sem=True):
     d = el.find(NS + "description")
     if d is not None and len(d) == 1:
-        return _tok(_xt(d[0], "text"), "T")
+        t = _tok(_xt(d[0], "text"), "T")
+        if not sem:
+            return t
+        si, su = el.find(NS + "semanticId"), el.find(NS + "supplementalSemanticIds")
+        return _tok_sem(t, [] if si is None else [_refvalx(si)], [] if su is None else [_refvalx(r) for r in su])
     return -1
 
 
@@ -286,7 +335,7 @@ def abs_xml_item(el, flattened=False):
         return {"k": "sm", "id": _xt(el, "id"), "ids": _xt(el, "idShort"), "tok": _tokx(el),
                 "quals": abs_quals_xml(el), "elems": [] if ses is None else [abs_elem_xml(e) for e in ses]}
     if tag == "conceptDescription":
-        return {"k": "cd", "id": _xt(el, "id"), "ids": _xt(el, "idShort"), "tok": _tokx(el)}
+        return {"k": "cd", "id": _xt(el, "id"), "ids": _xt(el, "idShort"), "tok": _tokx(el, sem=False)}
     if tag in XML_MT or tag == "anyElement":
         r = abs_elem_xml(el, mt=("?" if flattened else None))
         r["k"] = "elem"
@@ -325,10 +374,14 @@ def abs_xml(data, hint):
 
 # ------------------------------------------------------------------ store snapshot (independent of the server)
 
-def _toko(o):
+def _toko(o, sem=True):
     d = o.description
     if d is not None and len(d) == 1 and "en" in d:
-        return _tok(d["en"], "T")
+        t = _tok(d["en"], "T")
+        if not sem:
+            return t
+        kv = lambda r: r.key[0].value if len(r.key) else "?"
+        return _tok_sem(t, [] if o.semantic_id is None else [kv(o.semantic_id)], [kv(r) for r in o.supplemental_semantic_id])
     return -1
 
 
@@ -357,7 +410,7 @@ def snap_obj(o):
                 "quals": [(q.type, _int(q.value)) for q in o.qualifier],
                 "elems": [snap_elem(e) for e in o.submodel_element]}
     if isinstance(o, model.ConceptDescription):
-        return {"k": "cd", "id": o.id, "ids": o.id_short, "tok": _toko(o)}
+        return {"k": "cd", "id": o.id, "ids": o.id_short, "tok": _toko(o, sem=False)}
     return {"k": "unknown", "keys": [type(o).__name__]}
 
 
